@@ -4,6 +4,7 @@ import (
 	"encoding/json"
 	"fmt"
 	"go/ast"
+	"go/token"
 	"strings"
 	"time"
 
@@ -129,6 +130,20 @@ func reachCanonDst(f *dst.File) []string {
 				return true
 			})
 		}
+		// Data is a node only on objects somebody built or edited by hand (the parser stores iota or nothing)
+		switch data := o.Data.(type) {
+		case int:
+			desc += fmt.Sprintf(" data=%d", data)
+		case dst.Node:
+			desc += strings.Replace(fmt.Sprintf(" data=%T", data), "*dst.", "*", 1)
+			refs = append(refs, "|")
+			dst.Inspect(data, func(m dst.Node) bool {
+				if id, ok := m.(*dst.Ident); ok && id.Obj != nil {
+					refs = append(refs, fmt.Sprint(visit(id.Obj)))
+				}
+				return true
+			})
+		}
 		w.out[n-1] = strings.Replace(desc, "*dst.", "*", 1) + " [" + strings.Join(refs, " ") + "]"
 		return n
 	}
@@ -156,6 +171,20 @@ func reachCanonAst(f *ast.File) []string {
 		var refs []string
 		if dn, ok := o.Decl.(ast.Node); ok && dn != nil {
 			ast.Inspect(dn, func(m ast.Node) bool {
+				if id, ok := m.(*ast.Ident); ok && id.Obj != nil {
+					refs = append(refs, fmt.Sprint(visit(id.Obj)))
+				}
+				return true
+			})
+		}
+		// Data is a node only on objects somebody built or edited by hand (the parser stores iota or nothing)
+		switch data := o.Data.(type) {
+		case int:
+			desc += fmt.Sprintf(" data=%d", data)
+		case ast.Node:
+			desc += strings.Replace(fmt.Sprintf(" data=%T", data), "*ast.", "*", 1)
+			refs = append(refs, "|")
+			ast.Inspect(data, func(m ast.Node) bool {
 				if id, ok := m.(*ast.Ident); ok && id.Obj != nil {
 					refs = append(refs, fmt.Sprint(visit(id.Obj)))
 				}
@@ -203,6 +232,72 @@ func c18Removed(c *Ctx, path string, src []byte, out *ndjson) {
 	}
 }
 
+// c18HandData: objects that were edited by hand.  Object.Data of a declared name is set to an expression
+// that is not part of the file and mentions a helper name; the helper's object is built by hand, its
+// declaration is a hand-built spec outside the file that mentions the first name again (a cycle through
+// Data and Decl), and its own Data is a node too.  Restoring with Extras has to carry the whole graph:
+// every Data node and every Decl node converted, every object reachable through them linked.
+func c18HandData(c *Ctx, path string, src []byte, out *ndjson) {
+	df, err := decorator.Parse(string(src))
+	if err != nil {
+		return
+	}
+	var objs []*dst.Object
+	seen := map[*dst.Object]bool{}
+	dst.Inspect(df, func(m dst.Node) bool {
+		if id, ok := m.(*dst.Ident); ok && id.Obj != nil && !seen[id.Obj] && id.Obj.Data == nil {
+			seen[id.Obj] = true
+			objs = append(objs, id.Obj)
+		}
+		return true
+	})
+	if len(objs) == 0 {
+		return
+	}
+	for variant := 0; variant < 3; variant++ {
+		df, _ = decorator.Parse(string(src))
+		objs = objs[:0]
+		seen = map[*dst.Object]bool{}
+		dst.Inspect(df, func(m dst.Node) bool {
+			if id, ok := m.(*dst.Ident); ok && id.Obj != nil && !seen[id.Obj] && id.Obj.Data == nil {
+				seen[id.Obj] = true
+				objs = append(objs, id.Obj)
+			}
+			return true
+		})
+		n := 0
+		for i, o := range objs {
+			if i%(variant+1) != 0 || n >= 6 {
+				continue
+			}
+			n++
+			hname := fmt.Sprintf("helper%d", i)
+			hobj := dst.NewObj(dst.Var, hname)
+			back := &dst.Ident{Name: o.Name, Obj: o}
+			hdecl := &dst.ValueSpec{Names: []*dst.Ident{{Name: hname, Obj: hobj}}, Values: []dst.Expr{back}}
+			hobj.Decl = hdecl
+			if variant == 2 {
+				// a second hop: the helper's Data mentions another hand-built name declared by a hand-built field
+				h2 := dst.NewObj(dst.Var, hname+"x")
+				h2.Decl = &dst.Field{Names: []*dst.Ident{{Name: hname + "x", Obj: h2}}, Type: dst.NewIdent("int")}
+				hobj.Data = &dst.UnaryExpr{Op: token.SUB, X: &dst.Ident{Name: hname + "x", Obj: h2}}
+			}
+			o.Data = &dst.ParenExpr{X: &dst.Ident{Name: hname, Obj: hobj}}
+		}
+		r := decorator.NewRestorer()
+		r.Extras = true
+		var raf *ast.File
+		key := fmt.Sprintf("hand-data|%s|variant %d", path, variant)
+		if msg := guard(func() { raf, err = r.RestoreFile(df) }); msg != "" || err != nil {
+			c.Fail(Finding{Sig: "extras-restore-fails", Input: key, What: fmt.Sprintf("restoring with Extras a file whose objects carry hand-built Data nodes: %s %v", msg, err), Replay: obj{"kind": "none"}})
+			continue
+		}
+		a, b := reachCanonDst(df), reachCanonAst(raf)
+		out.Add(obj{"side": "reach", "a": a, "b": b, "file": fmt.Sprintf("%s|objects with hand-built Data nodes, variant %d", path, variant)})
+		c.Eval(key, len(a) > 0)
+	}
+}
+
 func init() {
 	replayers["c18removed"] = func(raw json.RawMessage) string {
 		var r struct{ Src, Path string }
@@ -217,6 +312,7 @@ func init() {
 		}
 		out := &ndjson{}
 		c18Removed(newCtx("C18", "quick", 1, "model_checking"), r.Path, src, out)
+		c18HandData(newCtx("C18", "quick", 1, "model_checking"), r.Path, src, out)
 		for _, line := range strings.Split(string(out.Bytes()), "\n") {
 			var rec struct{ A, B []string }
 			if json.Unmarshal([]byte(line), &rec) == nil && strings.Join(rec.A, "|") != strings.Join(rec.B, "|") {
